@@ -340,6 +340,13 @@ func longRun(c *harness.Ctx, id string, r *rand.Rand, epochs int) {
 	}
 	end := desc.Start + uint64(epochs)*spe
 	reorgDone := map[uint64]bool{}
+	var heldSlot atomic.Uint64
+	var heldRelease chan struct{}
+	defer func() {
+		if heldRelease != nil {
+			close(heldRelease)
+		}
+	}()
 	kind := "normal"
 	reorgPos := uint64(0)
 	for s := desc.Start + 1; s <= end; s++ {
@@ -347,7 +354,9 @@ func longRun(c *harness.Ctx, id string, r *rand.Rand, epochs int) {
 		if s%spe == 0 {
 			env.Duties.FailAttester = false
 			kind, reorgPos = "normal", uint64(1+r.Intn(int(spe)-2))
-			switch r.Intn(8) {
+			switch r.Intn(9) {
+			case 7:
+				kind = "scheduling-held" // a reorg of this epoch; one goroutine that sets up a later slot's job is descheduled as the scheduler takes it, until the job has run
 			case 0:
 				kind = "reorg-current" // the duties of this epoch change; validators with a later slot move to one that is over
 			case 1:
@@ -406,6 +415,38 @@ func longRun(c *harness.Ctx, id string, r *rand.Rand, epochs int) {
 		env.RunDueJobs(env.Clock.StartOfSlot(phase0.Slot(s + 1)))
 		if kind != "silent" {
 			sendHead(s)
+		}
+		if kind == "scheduling-held" && s%spe == reorgPos {
+			env.Duties.Attester[E] = genDuties(E, 0, 0)
+			dep[E] = depOf(E) + 1
+			hold := make(chan struct{})
+			var once sync.Once
+			env.Sched.SetAfterSchedule(func(name string) {
+				var x uint64
+				if n, _ := fmt.Sscanf(name, "Attestations for slot %d", &x); n == 1 && x > s && x/spe == E {
+					held := false
+					once.Do(func() { held = true; heldSlot.Store(x) })
+					if held {
+						<-hold
+					}
+				}
+			})
+			heldSlot.Store(0)
+			heldRelease = hold
+			sendHead(s)
+			env.Sched.SetAfterSchedule(nil)
+			if heldSlot.Load() == 0 {
+				close(hold)
+				heldRelease = nil
+			} else {
+				c.Count("scheduling_goroutines_held", 1)
+			}
+		}
+		if heldRelease != nil && s > heldSlot.Load() {
+			// the held slot's job has run and ended; its scheduling goroutine now gets to continue
+			close(heldRelease)
+			heldRelease = nil
+			env.Settle()
 		}
 		if reorgNow && kind == "reorg-current" {
 			env.Duties.Attester[E] = genDuties(E, s+1, 0)
@@ -921,16 +962,19 @@ func unblindFn(kind string, marker int, gate *sync.WaitGroup) func(ctx context.C
 }
 
 var unblindShapes = []struct {
-	name  string
-	kinds []string
-	gated bool
+	name    string
+	kinds   []string
+	gated   bool
+	sameKey bool // the first two addresses are one relay (the same public key), as with a relay's regional endpoints
 }{
-	{"three-succeed-at-once", []string{"block", "block", "block"}, true},
-	{"five-succeed-at-once", []string{"block", "block", "block", "block", "block"}, true},
-	{"one-succeeds", []string{"400", "block", "500"}, false},
-	{"all-reject", []string{"400", "400", "400"}, false},
-	{"all-fail-after-retries", []string{"500", "timeout"}, false},
-	{"single-relay-rejects", []string{"400"}, false},
+	{name: "one-relay-at-two-addresses", kinds: []string{"block", "block", "400"}, sameKey: true},
+	{name: "one-relay-at-two-addresses-rejects", kinds: []string{"400", "400"}, sameKey: true},
+	{name: "three-succeed-at-once", kinds: []string{"block", "block", "block"}, gated: true},
+	{name: "five-succeed-at-once", kinds: []string{"block", "block", "block", "block", "block"}, gated: true},
+	{name: "one-succeeds", kinds: []string{"400", "block", "500"}, gated: false},
+	{name: "all-reject", kinds: []string{"400", "400", "400"}, gated: false},
+	{name: "all-fail-after-retries", kinds: []string{"500", "timeout"}, gated: false},
+	{name: "single-relay-rejects", kinds: []string{"400"}, gated: false},
 }
 
 func proposerUnblinding(c *harness.Ctx, rounds int) {
@@ -965,7 +1009,10 @@ func proposerUnblinding(c *harness.Ctx, rounds int) {
 					gate.Add(len(sh.kinds))
 				}
 				for i, kind := range sh.kinds {
-					rl := &harness.Relay{Addr: fmt.Sprintf("http://c20relay%d.example.com/", i), KeyNo: i}
+					rl := &harness.Relay{Addr: fmt.Sprintf("http://c20relay%d.example.com/", i), KeyNo: i, HasPubkey: k%2 == 0 || sh.sameKey}
+					if sh.sameKey && i < 2 {
+						rl.KeyNo = 0
+					}
 					rl.UnblindFn = unblindFn(kind, i, gate)
 					w.relays = append(w.relays, rl)
 				}
@@ -1042,6 +1089,12 @@ func relayUnblinding(c *harness.Ctx, rounds int) {
 				// one request at a time per environment: the relays' behaviour is per request
 				for i, kind := range sh.kinds {
 					rl := env.Relays[env.RelayAddr(i)]
+					if sh.sameKey && k == 0 {
+						rl.HasPubkey = true
+						if i < 2 {
+							rl.KeyNo = 0
+						}
+					}
 					f := unblindFn(kind, i, gate)
 					rl.SetUnblindFn(f)
 				}
